@@ -742,6 +742,98 @@ class Grammar(object):
             return out
         raise AnalysisError('internal: unknown term kind %s' % k)
 
+    # ----------------------------------------------------------------------- matcher
+    WS = ' \t\n\r'
+
+    def match(self, t, text, pos=0, skip_ws=True, _depth=0):
+        """Model of pyparsing's matching of term t on text at pos: end index or None.
+
+        Ordered choice, greedy Optional/ZeroOrMore without retry, maximal-munch Word, white space skipped
+        before every terminal except inside Combine (which skips once, before its first character).
+        Used only for short probe strings of the terminal sub-grammars (number, name).
+        """
+        if _depth > 200:
+            raise AnalysisError('grammar matcher recursion too deep')
+        k = t.kind
+        d = _depth + 1
+
+        def ws(i):
+            if skip_ws:
+                while i < len(text) and text[i] in self.WS:
+                    i += 1
+            return i
+        if k == 'lit':
+            i = ws(pos)
+            return i + len(t.text) if text.startswith(t.text, i) else None
+        if k == 'clit':
+            i = ws(pos)
+            return i + len(t.text) if text[i:i + len(t.text)].lower() == t.text.lower() else None
+        if k == 'word':
+            i = ws(pos)
+            if i < len(text) and text[i] in t.init:
+                j = i + 1
+                while j < len(text) and text[j] in t.body:
+                    j += 1
+                return j
+            return None
+        if k == 'end':
+            i = ws(pos)
+            return i if i == len(text) else None
+        if k == 'empty':
+            return pos
+        if k == 'and':
+            i = pos
+            for kid in t.kids:
+                i = self.match(kid, text, i, skip_ws, d)
+                if i is None:
+                    return None
+            return i
+        if k == 'first':
+            for kid in t.kids:
+                i = self.match(kid, text, pos, skip_ws, d)
+                if i is not None:
+                    return i
+            return None
+        if k == 'opt':
+            i = self.match(t.kids[0], text, pos, skip_ws, d)
+            return pos if i is None else i
+        if k in ('star', 'plus'):
+            i = pos
+            n = 0
+            while True:
+                j = self.match(t.kids[0], text, i, skip_ws, d)
+                if j is None or j == i:
+                    break
+                i = j
+                n += 1
+            if k == 'plus' and n == 0:
+                return None
+            return i
+        if k == 'combine':
+            i = ws(pos)
+            return self.match(t.kids[0], text, i, False, d)
+        if k in ('group', 'suppress', 'forward'):
+            return self.match(t.kids[0], text, pos, skip_ws, d)
+        if k == 'not':
+            return pos if self.match(t.kids[0], text, pos, skip_ws, d) is None else None
+        if k == 'follow':
+            return pos if self.match(t.kids[0], text, pos, skip_ws, d) is not None else None
+        raise AnalysisError('internal: unknown term kind %s' % k)
+
+    def accepts(self, t, text):
+        """Does t match the whole of text (no surrounding white space)?"""
+        return self.match(t, text, 0) == len(text)
+
+    def terminals(self):
+        """All literal strings and character sets of the reachable grammar."""
+        chars = set()
+        for t in self.nodes():
+            if t.kind in ('lit', 'clit'):
+                chars |= set(t.text)
+            elif t.kind == 'word':
+                chars |= set(t.init) | set(t.body)
+        return chars
+
     # --------------------------------------------------------------------- inventory
     def groups(self):
         """[(group name | None, term, how)] for every construct that produces a nested, named ParseResults."""
